@@ -632,6 +632,27 @@ async fn queue_try_submit(
             Ok(submission_result) => {
                 let working_dir = submission_result.working_dir().clone();
                 match submission_result.into_id() {
+                    Ok(allocation_id)
+                        if autoalloc
+                            .get_queue_id_by_allocation(&allocation_id)
+                            .is_some() =>
+                    {
+                        // Workers identify their allocation only by its ID, so allocation IDs have
+                        // to be unique across all queues. Refuse the allocation and cancel it.
+                        log::error!(
+                            "Allocation ID {allocation_id} returned for queue {queue_id} is already in use. The allocation will be removed."
+                        );
+                        let allocation =
+                            Allocation::new(allocation_id, workers_to_spawn, working_dir);
+                        let queue = get_or_return!(autoalloc.get_queue_mut(queue_id));
+                        queue.limiter_mut().on_submission_fail();
+                        let remove_fut = queue.handler().remove_allocation(&allocation);
+                        if let Err(e) = remove_fut.await {
+                            log::error!("Failed to remove allocation {}: {e:?}", allocation.id);
+                        }
+                        autoalloc.add_inactive_directory(allocation.working_dir);
+                        break;
+                    }
                     Ok(allocation_id) => {
                         log::info!(
                             "Queued {workers_to_spawn} worker(s) into queue {queue_id}: allocation ID {allocation_id}"
